@@ -54,6 +54,9 @@ def gen_scenario(rng, store, restarts, nsteps):
             steps.append(["snapshot", rng.range(1, 3)])
         elif k == 11:
             steps.append(["sleep", rng.choice([200, 800])])
+    if restarts and not any(s[0] == "restart" for s in steps):
+        steps.insert(rng.range(3, len(steps) - 1), ["restart", rng.range(1, 3)])      # after some writes, followed by more steps
+        steps.append(gen_write(rng))
     return steps
 
 
